@@ -104,10 +104,11 @@ const (
 	OpCond
 	OpExit
 	OpRange
+	OpAtomic
 	nOps
 )
 
-var opNames = [nOps]string{"go", "send", "recv", "close", "select", "lock", "unlock", "rlock", "runlock", "wg.add", "wg.wait", "once", "pool.get", "pool.put", "sleep", "yield", "map", "cond", "exit", "range"}
+var opNames = [nOps]string{"go", "send", "recv", "close", "select", "lock", "unlock", "rlock", "runlock", "wg.add", "wg.wait", "once", "pool.get", "pool.put", "sleep", "yield", "map", "cond", "exit", "range", "atomic"}
 
 func (o Op) String() string {
 	if int(o) < len(opNames) {
